@@ -1,6 +1,78 @@
-(* Corr/MashCorr.v — correspondence entry points. *)
+(* Corr/MashCorr.v — correspondence entry points for package mash: decode a
+   case, run the model of Model/Mash.v, encode the observable exactly as
+   harness/mash.go encodes the implementation's.
+
+   A uint64 hash value travels as 8 bytes big-endian (the protocol's integers
+   are int64).  Every case carries the table of the real murmur3 values of its
+   canonical upper-cased k-mers; jaccard cases also carry the table of the
+   float64 quotients i/u. *)
 From Coq Require Import String.
 From Bio Require Import Base.
-From Bio.Model Require Import Mash.
+From Bio.Model Require Import Seq Mash.
 
-Definition corr_mash : list (string * (val -> val)) := [].
+Definition be_to_N (b : bytes) : N := fold_left (fun acc x => acc * 256 + x) b 0.
+Definition N_to_be8 (x : N) : bytes :=
+  map (fun i => (x / 256 ^ i) mod 256) [7; 6; 5; 4; 3; 2; 1; 0].
+
+Definition as_htab (v : val) : option (list (bytes * N)) :=
+  match v with
+  | VL l => all_some (map (fun e => match e with
+                                    | VL [VB kmer; VB hv] => Some (kmer, be_to_N hv)
+                                    | _ => None
+                                    end) l)
+  | _ => None
+  end.
+
+Definition as_divtab (v : val) : option (list ((Z * Z) * F)) :=
+  match v with
+  | VL l => all_some (map (fun e => match e with
+                                    | VL [VI i; VI u; VB t] => Some ((i, u), t)
+                                    | _ => None
+                                    end) l)
+  | _ => None
+  end.
+
+Definition as_batches (v : val) : option (list (list bytes)) :=
+  match v with VL l => all_some (map as_bytes_list l) | _ => None end.
+
+Definition hash_of (t : list (bytes * N)) (b : bytes) : option N := alookup b t.
+
+Definition v_hashes (l : list N) : val := VL (map (fun x => VB (N_to_be8 x)) l).
+
+(* [n k [seqs] htab] -> Sequences(n,k,seqs...).View() *)
+Definition c_sequences (v : val) : val :=
+  match v with
+  | VL [VI n; VI k; seqs; ht] =>
+    match as_bytes_list seqs, as_htab ht with
+    | Some ss, Some t => v_outcome v_hashes (sequences (hash_of t) n k ss)
+    | _, _ => v_bad
+    end
+  | _ => v_bad
+  end.
+
+(* [n k [[batch] ...] htab] -> Sequences on the first batch, Add for each further one; View() *)
+Definition c_add (v : val) : val :=
+  match v with
+  | VL [VI n; VI k; bs; ht] =>
+    match as_batches bs, as_htab ht with
+    | Some b, Some t => v_outcome v_hashes (incremental (hash_of t) n k b)
+    | _, _ => v_bad
+    end
+  | _ => v_bad
+  end.
+
+(* [nA nB k [seqsA] [seqsB] htab divtab] -> canonical text of
+   Sequences(nA,k,seqsA).Jaccard(Sequences(nB,k,seqsB)) *)
+Definition c_jaccard (v : val) : val :=
+  match v with
+  | VL [VI nA; VI nB; VI k; sa; sb; ht; dt] =>
+    match as_bytes_list sa, as_bytes_list sb, as_htab ht, as_divtab dt with
+    | Some a, Some b, Some t, Some d => v_outcome VB (sketch_jaccard (hash_of t) d nA nB k a b)
+    | _, _, _, _ => v_bad
+    end
+  | _ => v_bad
+  end.
+
+Definition corr_mash : list (string * (val -> val)) :=
+  [ ("mash_sequences"%string, c_sequences); ("mash_add"%string, c_add);
+    ("mash_jaccard"%string, c_jaccard) ].
